@@ -118,6 +118,21 @@ fn transform_module(
         let (arch, _) = nodes
             .get(parent)
             .expect("unreachable: parse order should guarantee, that all required modules are already parsed");
+        // Inherited names must not be declared again (a gate may be repeated identically).
+        if let Some(gate) = arch
+            .gates
+            .iter()
+            .find(|inherited| gates.iter().any(|g| g.ident == inherited.ident && g != *inherited))
+        {
+            return Err(ErrorKind::SymbolAlreadyDefined(gate.ident.clone()).into());
+        }
+        if let Some(sub) = arch
+            .submodules
+            .iter()
+            .find(|inherited| submodules.iter().any(|s| s.name.ident == inherited.name.ident))
+        {
+            return Err(ErrorKind::SymbolAlreadyDefined(sub.name.ident.clone()).into());
+        }
         gates.extend(arch.gates.iter().cloned());
         submodules.extend(arch.submodules.iter().cloned());
         connections.extend(arch.connections.iter().cloned());
